@@ -173,3 +173,17 @@ pub fn enc(args: &[&str]) -> String {
         Err(_) => "ERR".into(),
     }
 }
+
+/// RT: encode each `;`-separated message with the real encoder, concatenate, decode iteratively
+pub fn rt(args: &[&str]) -> String {
+    let mut bytes = vec![];
+    for m in args.split(|t| *t == ";") {
+        let r = enc(m);
+        match r.strip_prefix("OK ") {
+            Some(h) => bytes.extend(unhex(h).unwrap()),
+            None => return format!("{} =>", r),
+        }
+    }
+    let h = hex(&bytes);
+    format!("OK {} => {}", h, decs(&[&h]))
+}
